@@ -13,7 +13,12 @@ import (
 var RuntimePlants = []string{"rt.divzero", "rt.divzero.paren", "rt.divzero.var", "rt.negstr", "rt.unknownident", "rt.bindnone",
 	"rt.bindtwo", "rt.dupchild", "rt.badtypes", "rt.unplus", "rt.cmp"}
 var WarnPlants = []string{"warn.rebind"}
-var CompilePlants = []string{"ct.strayparen", "ct.missingoperand", "ct.dupvar", "ct.assignlit", "ct.undefinedvar", "ct.lex", "ct.badbind", "ct.noblocktype", "ct.unterminated"}
+var CompilePlants = []string{"ct.strayparen", "ct.missingoperand", "ct.dupvar", "ct.assignlit", "ct.undefinedvar", "ct.lex", "ct.badbind", "ct.noblocktype", "ct.unterminated", "ct.badblockname", "ct.badlit"}
+
+// ExactCompilePlants are those whose offending token is beyond doubt: the diagnostic must
+// designate the end of exactly that token (the second declaration's name, the unknown name,
+// the malformed literal, the bad selector, the block name with the bad escape).
+var ExactCompilePlants = map[string]bool{"ct.dupvar": true, "ct.undefinedvar": true, "ct.badbind": true, "ct.badblockname": true, "ct.badlit": true}
 
 // AddPlant appends a planted statement (sequence) at the end of the program
 // and re-renders it. The program must have been generated with Cfg.Safe for
@@ -218,6 +223,17 @@ func AddPlant(r *prng.R, p *Prog, kind string, cfg Cfg) {
 		pu("->")
 		id("struct")
 		pl.Match = "as a block selector"
+	case "ct.badblockname":
+		kw("def")
+		id("bn" + uniq)
+		pl.Tok = add(`"a\qb"`, KStr)
+		pu("{")
+		pu("}")
+		pl.Match = "invalid block name"
+	case "ct.badlit":
+		kw("print")
+		pl.Tok = add(prng.Pick(r, []string{"08", "0x", "1e999", "99999999999999999999", `"\q"`}), KInt)
+		pl.Match = "literal"
 	case "ct.noblocktype":
 		kw("def")
 		pl.Tok = pu("{")
